@@ -31,6 +31,7 @@ std::string& retsr(int id, int snap, std::string& target, const void* a1) { log_
 std::pair<int, int> retp(int id, int snap, const void* a1) { log_clause('R', id, 0, snap, a1, nullptr); point(); return {id * 8 + (snap & 7), snap}; }
 std::pair<int, int>& retpr(int id, int snap, std::pair<int, int>& target, const void* a1) { log_clause('R', id, 0, snap, a1, &target); point(); return target; }
 std::runtime_error thr_std(int id, int snap) { log_clause('R', id, 0, snap, nullptr, nullptr); point(); return std::runtime_error("inst " + std::to_string(id)); }
+sim_error& thr_var(int id, int snap, sim_error& e) { log_clause('R', id, 0, snap, nullptr, &e); point(); return e; }
 int thr_int(int id, int snap) { log_clause('R', id, 0, snap, nullptr, nullptr); point(); return id; }
 
 void ExecImpl::clause_log(char kind, int id, int k, long v, const void* a1, const void* a2) {
